@@ -231,6 +231,7 @@ static str apply(String & s, const std::vector<str> & a, bool allowAlias, String
    if (c == "wiw")  {SA(2); CBuf sep(unhex(a[3])); prod = new String(s.WithInsertedWord(U(a[1]), S2, sep._p)); if (*prod != s.WithInsertedWord(U(a[1]), S2(), sep._p)) complaint = "WithInsertedWord(String) != (cstr)"; return "r";}
    if (c == "waw")  {SA(1); CBuf sep(unhex(a[2])); prod = new String(s.WithAppendedWord(S1, sep._p)); if (*prod != s.WithAppendedWord(S1(), sep._p)) complaint = "WithAppendedWord(String) != (cstr)"; return "r";}
    if (c == "wpw")  {SA(1); CBuf sep(unhex(a[2])); prod = new String(s.WithPrependedWord(S1, sep._p)); return "r";}
+   if (c == "ind")  {prod = new String(s.IndentedBy(U(a[1]), CH(2))); return "r";}
    if (c == "wsfh") {prod = new String(s.WithSuffix(CH(1))); return "r";}
    if (c == "wpfh") {prod = new String(s.WithPrefix(CH(1))); return "r";}
    if (c == "wosfi"){SA(1); prod = new String(s.WithoutSuffixIgnoreCase(S1, U(a[2]))); return "r";}
@@ -422,6 +423,23 @@ static str ref_apply(str & s, const std::vector<str> & a, bool & hasProd, str & 
          r += w;
          if ((!tail.empty())&&(!ends(r, sep))&&(!starts(tail, sep))) r += sep;
          prod = r + tail;
+      }
+      return "r";
+   }
+   if (c == "ind")
+   {
+      const uint32 n = U(a[1]);
+      if ((n == 0)||(RH(2) == 0)) {prod = s; return "r";}
+      const str pad((size_t)n, RH(2));
+      prod.clear();
+      // every line that has at least one character gets the pad in front of it; a leading empty line too
+      if ((!s.empty())&&((s[0] == '\r')||(s[0] == '\n'))) prod = pad;
+      bool atLineStart = true;
+      for (size_t i=0; i<s.size(); i++)
+      {
+         if ((s[i] == '\n')||(s[i] == '\r')) atLineStart = true;
+         else if (atLineStart) {prod += pad; atLineStart = false;}
+         prod += s[i];
       }
       return "r";
    }
